@@ -183,9 +183,13 @@ impl RotoReport {
 
                     let labels = error.labels.iter().map(|l| {
                         let s = self.spans.get(l.id);
+                        // A label can be in another file than the error
+                        // itself, so the character range must be computed
+                        // on the text of the label's own file.
+                        let label_text = self.files[s.file].contents.as_str();
                         Label::new((
                             self.filename(s),
-                            s.character_range(file_text),
+                            s.character_range(label_text),
                         ))
                         .with_message(&l.message)
                         .with_color(match l.level {
